@@ -941,6 +941,33 @@ def f_metrics(tier="quick", seed=0):
                               "mapping": {"loop-order": {"Z": lo}, "spacetime": {"Z": {"space": [], "time": lo}}},
                               "extents": {"K": 3, "M": 2, "N": 2}, "sizes": {}, "arch": a2, "bindings": secs["bindings"],
                               "format": secs["format"], "tags": {"family": "metrics", "template": "mini-siblings", "leader_first": True}})
+    # convolution on a tiny accelerator, unpartitioned and with the output rank partitioned (interval code under metrics)
+    def conv_spec(part, lo, iranks, oranks):
+        def fmt(t, ranks):
+            yy = "  %s:\n    default:\n      rank-order: [%s]\n" % (t, ", ".join(ranks))
+            for r in ranks:
+                yy += "      %s:\n        format: C\n        cbits: 32\n        pbits: 64\n" % r
+            return yy
+        y = "format:\n" + fmt("I", iranks) + fmt("F", ["S"]) + fmt("O", oranks)
+        y += ("architecture:\n  Acc:\n  - name: System\n    attributes:\n      clock_frequency: 101\n    local:\n"
+              "    - name: Mem\n      class: DRAM\n      attributes:\n        bandwidth: 211\n    subtree:\n"
+              "    - name: PE[0..2]\n      local:\n      - name: Mul\n        class: compute\n        attributes:\n          type: mul\n"
+              "      - name: Add\n        class: compute\n        attributes:\n          type: add\n")
+        y += ("bindings:\n  O:\n  - config: Acc\n    prefix: tmp/O\n  - component: Mul\n    bindings:\n    - op: mul\n"
+              "  - component: Add\n    bindings:\n    - op: add\n")
+        secs = S.split_sections(y)
+        m = {"loop-order": {"O": lo}, "spacetime": {"O": {"space": [lo[0]], "time": lo[1:]}}}
+        if part:
+            m["partitioning"] = {"O": part}
+        return {"name": "metrics/conv/lo=%s" % ",".join(lo), "decl": {"F": ["S"], "I": ["W"], "O": ["Q"]},
+                "exprs": ["O[q] = I[q + s] * F[s]"], "mapping": m, "extents": {"Q": 4, "S": 2, "W": 5}, "sizes": {},
+                "arch": secs["architecture"], "bindings": secs["bindings"], "format": secs["format"],
+                "tags": {"family": "metrics", "template": "conv", "leader_first": True}}
+    pq = {"Q": ["uniform_shape(2)"], "W": ["follow(Q)"]}
+    specs.append(conv_spec(None, ["Q", "S"], ["W"], ["Q"]))
+    specs.append(conv_spec(None, ["W", "Q"], ["W"], ["Q"]))
+    specs.append(conv_spec(pq, ["Q1", "S", "Q0"], ["W1", "W0"], ["Q1", "Q0"]))
+    specs.append(conv_spec(pq, ["Q1", "W0", "Q0"], ["W1", "W0"], ["Q1", "Q0"]))
     # partitioned variant (explicit shapes with interleaved levels)
     for lo in (["M1", "N", "K", "M0"], ["N", "M1", "M0", "K"], ["K", "M1", "N", "M0"]):
         for isect in (None, "two-finger", "leader-follower"):
